@@ -21,6 +21,7 @@ package dag
 import (
 	"encoding/base64"
 	"fmt"
+	"math"
 	"time"
 
 	"github.com/lestrrat-go/jwx/v2/jwa"
@@ -203,6 +204,10 @@ func parseLamportClock(transaction *transaction, headers jws.Headers, _ *jws.Mes
 		// won't happen since it's a critical header, but we need to check the cast anyway
 		return transactionValidationError(missingHeaderErrFmt, lamportClockHeader)
 	} else if lcAsFloat64, ok := lcAsInterf.(float64); !ok {
+		return transactionValidationError(invalidHeaderErrFmt, lamportClockHeader)
+	} else if lcAsFloat64 < 0 || lcAsFloat64 > math.MaxUint32 || lcAsFloat64 != math.Trunc(lcAsFloat64) {
+		// the clock must be an unsigned 32-bit integer: converting any other float64 to uint32 truncates (1.5 -> 1)
+		// or, out of range, gives a platform-dependent value
 		return transactionValidationError(invalidHeaderErrFmt, lamportClockHeader)
 	} else {
 		transaction.lamportClock = uint32(lcAsFloat64)
